@@ -512,7 +512,59 @@ def case_align(ctx, inp):
         ctx.branch("align-known-vs-unknown-divisions")
 
 
-CASES = {"pipe": case_pipe, "api": case_api, "align": case_align}
+def case_reset(ctx, inp):
+    """filters on `reset_index()` whose predicate reads the former index column, other columns, or both (the filter is
+    pushed below the ResetIndex: every column the predicate reads must move with it)"""
+    import pandas as pd
+    dd = U.dd()
+    n = len(inp["index"])
+    df = pd.DataFrame({"a": U.mk_series(inp["a"], "int64", index=inp["index"]), "b": U.mk_series(inp["b"], "float64", index=inp["index"])},
+                      index=pd.Index(inp["index"], name=inp["index_name"]))
+    d = dd.from_pandas(df, npartitions=inp["npartitions"]) if inp["from_pandas"] else U.from_parts(df, inp["lens"], known=inp["known"])
+    name = inp["index_name"] or "index"
+    series = inp["series"]
+
+    def prog(f):
+        base = f["a"] if series else f
+        r = base.reset_index(drop=False)
+        k, w = inp["k"], inp["w"]
+        sh = inp["shape"]
+        if sh == "both":
+            pred = (r[name] > k) & (r["a"] < w)
+        elif sh == "index":
+            pred = r[name] > k
+        elif sh == "column":
+            pred = r["a"] < w
+        elif sh == "arith":
+            pred = (r[name] + r["a"] > k + w) | (r["a"] == w)
+        else:  # or-shared
+            pred = ((r[name] > k) & (r["a"] < w)) | ((r[name] > k) & (r["a"] > w + 1))
+        out = r[pred]
+        return out[[name, "a"]] if inp["tailsel"] else out
+    try:
+        exp = prog(df)
+    except Exception as e:
+        ctx.note("pandas_rejected:" + type(e).__name__)
+        return
+    try:
+        got = prog(d).compute(scheduler="sync")
+    except Exception as e:
+        ctx.fail(f"filter on reset_index() ({inp['shape']}) raised {type(e).__name__}", observed=f"{type(e).__name__}: {e}"[:300])
+        return
+    # dask restarts the new RangeIndex in every partition: compare rows, order and dtypes without the index
+    try:
+        pd.testing.assert_frame_equal(got.reset_index(drop=True), exp.reset_index(drop=True), check_exact=False, rtol=1e-12)
+    except AssertionError as e:
+        ctx.fail(f"filter on reset_index() ({inp['shape']}) differs from pandas", observed=str(e)[:300])
+        return
+    ctx.branch("reset-" + inp["shape"])
+    if series:
+        ctx.branch("reset-series")
+    if not inp["index_name"]:
+        ctx.branch("reset-unnamed-index")
+
+
+CASES = {"pipe": case_pipe, "api": case_api, "align": case_align, "reset": case_reset}
 
 
 # ------------------------------------------------------------------------------------------------
@@ -675,6 +727,16 @@ def gen_align(rng):
                                 "proj_of_method", "proj_scalar_of_method"])}
 
 
+def gen_reset(rng):
+    n = rng.randint(0, 12)
+    idx = sorted(rng.sample(range(30), n))
+    return {"index": idx, "a": [rng.randint(-2, 6) for _ in range(n)], "b": [rng.randint(0, 4) for _ in range(n)],
+            "index_name": rng.choice(["k", "k", None]), "npartitions": rng.randint(1, 4), "from_pandas": rng.random() < 0.6,
+            "lens": U.gen_lens(rng, n, 4), "known": rng.random() < 0.7, "series": rng.random() < 0.3,
+            "k": rng.randint(0, 25), "w": rng.randint(-1, 5), "shape": rng.choice(["both", "both", "index", "column", "arith", "or-shared"]),
+            "tailsel": rng.random() < 0.3}
+
+
 def generate(ctx):
     rng = ctx.rng
     # fixed edge cases: empty frame, single row, all rows filtered
@@ -688,6 +750,8 @@ def generate(ctx):
         yield "api", gen_api(rng)
     for _ in range(ctx.n(60, 1200)):
         yield "align", gen_align(rng)
+    for _ in range(ctx.n(30, 400)):
+        yield "reset", gen_reset(rng)
 
 
 def search(ctx):
